@@ -12,11 +12,12 @@
 (***************************************************************************)
 EXTENDS MCZDemo
 CONSTANT Scripts
-VARIABLES sid, pc, act      \* act: the concrete call just made (symbolic serials resolved)
-svars == <<vars, sid, pc, act>>
+VARIABLES sid, pc, act,     \* act: the concrete call just made (symbolic serials resolved)
+          todo              \* what is left of the script (TLC re-evaluates the constant Scripts on every reference)
+svars == <<vars, sid, pc, act, todo>>
 C1 == CHOOSE c \in Client : TRUE
-E == Scripts[sid][pc]
-More == pc <= Len(Scripts[sid])
+E == Head(todo)
+More == todo # <<>>
 AllH == Cat(layers)
 \* (k >= K: a concrete tid - every tid is at least K, no history has K transactions; used by recorded replays)
 KTid(k) == IF k >= K THEN k
@@ -26,7 +27,7 @@ CurSer(o) == LET l == QLoad(layers, Top, o) IN IF l.k = "rev" THEN l.serial ELSE
 \* (a transaction that did not write the object does not name a serial of it: the current one is meant)
 Ser(o, s) == IF s = -1 THEN CurSer(o)
              ELSE IF s <= -2 THEN (IF KTid(-s - 1) \in SerialsOf(o) THEN KTid(-s - 1) ELSE CurSer(o)) ELSE s
-Adv == pc' = pc + 1 /\ sid' = sid
+Adv == pc' = pc + 1 /\ sid' = sid /\ todo' = Tail(todo)
 
 \* the client's side of the protocol: after a refused call it aborts (an inserted step), and what the
 \* script still holds for that transaction is skipped
@@ -35,8 +36,8 @@ Idle == txn = NoTxn
 Go == More /\ ~Failed
 TxnCalls == {"store", "check", "undo", "vote", "finish", "abort"}
 
-SInit == Init /\ sid \in 1..Len(Scripts) /\ pc = 1 /\ act = [a |-> "init"]
-SAutoAbort == More /\ Failed /\ Abort(C1) /\ pc' = pc /\ sid' = sid /\ act' = [a |-> "abort"]
+SInit == Init /\ sid \in 1..Len(Scripts) /\ todo = Scripts[sid] /\ pc = 1 /\ act = [a |-> "init"]
+SAutoAbort == More /\ Failed /\ Abort(C1) /\ pc' = pc /\ sid' = sid /\ todo' = todo /\ act' = [a |-> "abort"]
 SSkip == Go /\ Idle /\ E.a \in TxnCalls /\ UNCHANGED vars /\ Adv /\ act' = [a |-> "skip"]
 SBegin == Go /\ E.a = "begin" /\ Begin(C1, E.m, E.clk) /\ Adv /\ act' = E
 SStore == Go /\ ~Idle /\ E.a = "store" /\ Store(C1, E.o, Ser(E.o, E.s), E.d) /\ Adv /\ act' = [E EXCEPT !.s = Ser(E.o, E.s)]
